@@ -74,8 +74,8 @@ def snapshot(roots):
 # ------------------------------------------------------------------ strace log parser
 _LINE = re.compile(r'^(\d+)\s+(\d+\.\d+)\s+(.*)$')
 _STR = r'"((?:[^"\\]|\\.)*)"'
-_FD = r'(?:AT_FDCWD|-?\d+)(?:<((?:[^>\\]|\\.)*)>)?'
-_RET = r'\s*=\s*(-?\d+)(?:<[^>]*>)?(?:\s+(E[A-Z]+))?'
+_FD = r'(?:AT_FDCWD|-?\d+)(?:<((?:[^>\\]|\\.)*)>(?:\(deleted\))?)?'   # strace marks descriptors of unlinked files '(deleted)'
+_RET = r'\s*=\s*(-?\d+)(?:<[^>]*>(?:\(deleted\))?)?(?:\s+(E[A-Z]+))?'
 PATTERNS = {
     'openat': re.compile(r'^openat\(' + _FD + r', ' + _STR + r', ([A-Z_|0-9a-fx]+)(?:, [0-7]+)?\)' + _RET),
     'open': re.compile(r'^open\(' + _STR + r', ([A-Z_|0-9a-fx]+)(?:, [0-7]+)?\)' + _RET),
@@ -98,7 +98,7 @@ PATTERNS = {
     'faccessat2': re.compile(r'^faccessat2\(' + _FD + r', ' + _STR + r', [A-Z_|0-9a-fx]+, [A-Z_|0-9a-fx]+\)' + _RET),
     'readlink': re.compile(r'^readlink\(' + _STR + r', (.*)\)' + _RET),
     'readlinkat': re.compile(r'^readlinkat\(' + _FD + r', ' + _STR + r', (.*)\)' + _RET),
-    'getdents64': re.compile(r'^getdents64\(' + r'-?\d+(?:<((?:[^>\\]|\\.)*)>)?' + r',\s*.*\)' + _RET),
+    'getdents64': re.compile(r'^getdents64\(' + r'-?\d+(?:<((?:[^>\\]|\\.)*)>(?:\(deleted\))?)?' + r',\s*.*\)' + _RET),
 }
 
 
